@@ -22,7 +22,7 @@ Definition target_always_present (s : schema) (t : ftype) : bool :=
 Definition field_info (s : schema) (f : fdesc) : info :=
   let is_oneof := match foneof f with Some _ => true | None => false end in
   let optional_kw := match flabel f with LOptional => true | _ => false end in
-  let repeated := match flabel f, fty f with LRepeated, TMap _ _ => false | LRepeated, _ => true | _, _ => false end in
+  let repeated := match flabel f, fty f with LRepeated, TMap _ _ => false | LRepeated, TMapOther => false | LRepeated, _ => true | _, _ => false end in
   (* desc.HasPresence() || desc.HasOptionalKeyword() *)
   let has_presence :=
       match flabel f with
@@ -35,6 +35,7 @@ Definition field_info (s : schema) (f : fdesc) : info :=
       | TScalar k => (GInternal k, has_presence)
       | TEnum => (GEnum, has_presence)
       | TMap kk vk => (GCast (CastMap kk vk), false)
+      | TMapOther => (GMapUnsupported, false)
       | TMsg idx => (GMessage idx, true)
       end in
   (* only messages in oneof should be pointers, by default *)
